@@ -180,7 +180,28 @@ def literal_path():
     gram_member = m.group(1)
     if not re.search(r"TOKEN_INTEGER\s*\{\s*\$\$\s*=\s*pt\.node2\(statementType_e::Integer,\s*\$1,", gr):
         raise BrokenTie("yyParser.yy: TOKEN_INTEGER is no longer turned into node2(Integer, $1, ..)")
-    return (lex_member, members[lex_member]), (gram_member, members[gram_member]), (emit_member, members[emit_member])
+    return (lex_member, members[lex_member]), (gram_member, members[gram_member]), (emit_member, members[emit_member]), members
+
+
+def case_label_path(comp, members, types):
+    m, body = function_body(comp, r"void\s+ScriptEmitter::EmitCaseLabel\s*\(\s*sval_t\s+case_parm\s*,[^)]*\)\s*\{", "EmitCaseLabel(sval_t)")
+    pos = re.search(r"statementType_e::Integer\s*\)\s*\{\s*EmitCaseLabel\(\s*(?:\(\s*(\w+)\s*\))?\s*case_parm\.node\[1\]\.(\w+)\s*,", body)
+    neg = re.search(r"OP_UN_MINUS\s*\)\s*\{\s*EmitCaseLabel\(\s*\(\s*(\w+)\s*\)\s*\(\s*0\s*-\s*case_parm\.node\[2\]\.node\[1\]\.(\w+)\s*\)\s*,", body)
+    if not pos or not neg:
+        raise BrokenTie("EmitCaseLabel: the integer / negated integer branches no longer have the shape (T)node.<member> / (T)(0 - node.<member>)")
+    if pos.group(2) != neg.group(2) or pos.group(2) not in members:
+        raise BrokenTie("EmitCaseLabel: the two branches read different members (%s, %s)" % (pos.group(2), neg.group(2)))
+    cast_p = pos.group(1) or {32: "uint32_t", 64: "uint64_t"}[members[pos.group(2)]]
+    if cast_p not in types or neg.group(1) not in types or types[cast_p] != types[neg.group(1)]:
+        raise BrokenTie("EmitCaseLabel: casts %s / %s" % (cast_p, neg.group(1)))
+    m2, body2 = function_body(comp, r"void\s+ScriptEmitter::EmitCaseLabel\s*\(\s*(u?int\d+_t)\s+label\s*,[^)]*\)\s*\{", "EmitCaseLabel(int)")
+    buf = re.search(r"prchar_t\s+name\[(\d+)\]\s*\{\s*\}\s*;\s*std::to_chars\(\s*name\s*,\s*name\s*\+\s*sizeof\(name\)\s*,\s*label\s*\)", body2)
+    if not buf:
+        raise BrokenTie("EmitCaseLabel(int): the label text is no longer produced by std::to_chars into a zero-initialised name[N]")
+    argt = m2.group(1)
+    if not types[argt][1] or not types[cast_p][1]:
+        raise BrokenTie("EmitCaseLabel: unsigned label type (negative labels cannot be printed)")
+    return {"member": (pos.group(2), members[pos.group(2)]), "cast": types[cast_p][0] * 8, "arg": types[argt][0] * 8, "buf": int(buf.group(1))}
 
 
 def extract():
@@ -194,8 +215,9 @@ def extract():
     _, ev = function_body(comp, r"bool\s+ScriptEmitter::EvalPrevValue\s*\([^)]*\)\s*\{", "EvalPrevValue")
     fold = parse_decode(ev, r"case\s+OP_STORE_INT(\d):\s*var\.(\w+)\(\s*(.*?)\s*\);\s*break;",
                         "EvalPrevValue", types, setters, r"ReadOpValue<\s*([\w ]+?)\s*>\(\s*sizeof\(\s*([\w ]+?)\s*\)\s*\)")
-    lex, gram, emit = literal_path()
-    return {"argbits": argbits, "rows": rows, "dflt": dflt, "dec": dec, "fold": fold, "lex": lex, "gram": gram, "emit": emit}
+    lex, gram, emit, members = literal_path()
+    case = case_label_path(comp, members, types)
+    return {"argbits": argbits, "rows": rows, "dflt": dflt, "dec": dec, "fold": fold, "lex": lex, "gram": gram, "emit": emit, "case": case}
 
 
 def generated_v(d):
@@ -231,6 +253,12 @@ def generated_v(d):
     o.append("Definition gram_bits : Z := %d." % d["gram"][1])
     o.append("Definition emit_bits : Z := %d." % d["emit"][1])
     o.append("Definition arg_bits : Z := %d." % d["argbits"])
+    o.append("")
+    o.append("(* EmitCaseLabel: node[1].%s, the cast, the label argument, the size of the text buffer *)" % d["case"]["member"][0])
+    o.append("Definition case_member_bits : Z := %d." % d["case"]["member"][1])
+    o.append("Definition case_cast_bits : Z := %d." % d["case"]["cast"])
+    o.append("Definition case_arg_bits : Z := %d." % d["case"]["arg"])
+    o.append("Definition case_buf : Z := %d." % d["case"]["buf"])
     return "\n".join(o) + "\n"
 
 
